@@ -140,7 +140,7 @@ class C15(Check):
                 yield self._mk(cfg, items, cuts)
 
     def _gen_random(self, rng, tier):
-        nrand = 6000 if tier == 'quick' else 60000
+        nrand = 6000 if tier == 'quick' else 10 ** 7
         cfgs = list(self._configs())
         # (c) random long streams, random cut sets, empty chunks, truncations
         for k in range(nrand):
